@@ -194,6 +194,8 @@ pub fn sites(tier: Tier) -> Vec<Site> {
         for x in ALPHA { short.push(x.to_string()); }
         for x in ALPHA { for y in ALPHA { short.push(format!("{x}{y}")); } }
         for x in ["0.7F", "0.7F1", "0.6U13", "1A", "0.7f", "99999999999999999999999999999999999999999B"] { short.push(x.to_string()); }
+        // texts that are prefixes of one another, through the lengths a wire field (8 bytes) and a machine word care about
+        for base in ["0.7A1234567891234", "12345678.5Z77"] { for l in 3..=base.len() { short.push(base[..l].to_string()); } }
         let short = Arc::new(short);
         let n = (short.len() * short.len()) as u64;
         sites.push(Site::new("parse-pairs", n,
